@@ -167,7 +167,7 @@ Section Ctx.
         destruct H2 as [_ H2]. clear - H2 Hj. induction fs as [|[id' v'] r2 IHr2]; [ein|].
         inversion H2; subst. apply errs_in_band; [|apply IHr2; assumption].
         destruct (has_key id' (sd_attrs sd')); [apply H1; assumption | ein; assumption].
-      + destruct (check_type_of_value value (Some p) p); [apply IHr; assumption | ein; assumption].
+      + destruct (check_type_of_value E value (Some p) p); [apply IHr; assumption | ein; assumption].
   Qed.
 
   Lemma ctx_check_literal : forall (Q : ctx -> Prop) ictx jctx s j,
